@@ -21,13 +21,13 @@ var traceLvl = len(os.Getenv("SYMGO_TRACE"))
 var debugModel = os.Getenv("SYMGO_DEBUG_MODEL") != ""
 
 type decision struct {
-	cond   *Term // constraint asserted is cond if val else not cond
-	val    bool
-	hasAlt bool // other side feasible and unexplored
-	kind   uint8 // 0 branch, 1 assume/assert-continue, 2 no-merge marker
+	cond     *Term // constraint asserted is cond if val else not cond
+	val      bool
+	hasAlt   bool  // other side feasible and unexplored
+	kind     uint8 // 0 branch, 1 assume/assert-continue, 2 no-merge marker
 	altModel Model
-	site   *ssa.If // for markers: the If whose region could not be merged
-	seq    int     // dynamic occurrence number of that If on the path
+	site     *ssa.If // for markers: the If whose region could not be merged
+	seq      int     // dynamic occurrence number of that If on the path
 }
 
 type Obligation struct {
@@ -49,24 +49,24 @@ type Explorer struct {
 	model        Model
 	modelOK      bool
 	// results
-	Paths        int
-	Obls         []Obligation
-	Reached      map[string]int
-	FeasQueries  int
+	Paths         int
+	Obls          []Obligation
+	Reached       map[string]int
+	FeasQueries   int
 	AssertQueries int
-	Aborted      int
-	NonTrivial   int
-	Merges       int
-	MergeFails   int
-	Samples      []string
-	maxPaths     int
-	noMergeIf    map[*ssa.If]bool
-	trivialOK    int
-	unknownFeas  int
-	rangeFacts   map[*Term][3]int64
-	failCount    int   // merge failures so far
-	failBase     []int // failCount at entry of each active region exploration
-	bseq         int // number of symbolic branches met so far on the current path (regions count once)
+	Aborted       int
+	NonTrivial    int
+	Merges        int
+	MergeFails    int
+	Samples       []string
+	maxPaths      int
+	noMergeIf     map[*ssa.If]bool
+	trivialOK     int
+	unknownFeas   int
+	rangeFacts    map[*Term][3]int64
+	failCount     int   // merge failures so far
+	failBase      []int // failCount at entry of each active region exploration
+	bseq          int   // number of symbolic branches met so far on the current path (regions count once)
 }
 
 func newExplorer(m *Machine) *Explorer {
@@ -545,15 +545,15 @@ func (e *Explorer) each(f func()) {
 // ---------- region merging ----------
 
 type pathEnd struct {
-	pc     *Term
-	env    map[ssa.Value]value
-	prev   *ssa.BasicBlock
-	writes map[*value]value // final values of pre-existing cells
-	mapw   []undo
-	kind   int // 0 reached join, 1 returned, 2 panicked
-	result value
-	pan    any
-	order  []*value
+	pc       *Term
+	env      map[ssa.Value]value
+	prev     *ssa.BasicBlock
+	writes   map[*value]value // final values of pre-existing cells
+	mapw     []undo
+	kind     int // 0 reached join, 1 returned, 2 panicked
+	result   value
+	pan      any
+	order    []*value
 	phisDone bool
 }
 
